@@ -79,7 +79,7 @@ func deepDoc(prefix, cycle []gEdge, depth int, wrap bool) string {
 	var open, close strings.Builder
 	var closers []string
 	put := func(e gEdge) {
-		if e.Via == "prop" {
+		if e.Via == "prop" || e.Via == "allof" {
 			fmt.Fprintf(&open, `{"%s":`, e.Name)
 			closers = append(closers, "}")
 		} else {
@@ -220,7 +220,7 @@ func judgeGraphUnits(sc *work.Scratch, devs []string, units []*Unit, g *graphRes
 	var rtExec []*Exec
 	var gEvents []any
 	for i, e := range execs {
-		ge := &graphEvent{Unit: map[string]any{"gonames": units[i].Raw["gonames"], "cyclic": units[i].Raw["cyclic"]}, Gen: "ok", Decls: []string{}, Deep: []map[string]any{}}
+		ge := &graphEvent{Unit: map[string]any{"gonames": units[i].Raw["gonames"], "cyclic": units[i].Raw["cyclic"], "allofcycle": units[i].Raw["allofcycle"]}, Gen: "ok", Decls: []string{}, Deep: []map[string]any{}}
 		switch {
 		case e.GenDead:
 			ge.Gen = "dead"
@@ -256,7 +256,7 @@ func judgeGraphUnits(sc *work.Scratch, devs []string, units []*Unit, g *graphRes
 	if err != nil {
 		return g, infra(prop, err)
 	}
-	greps, gtally, gtr, err := ValidateWith(sc, "gg", "Trace_C10R", "", nil, gEvents)
+	greps, gtally, gtr, err := ValidateWith(sc, "gg", "Trace_C10R", "  Devs = "+devSet(devs)+"\n", nil, gEvents)
 	if err != nil {
 		return g, infra(prop, err)
 	}
@@ -265,7 +265,8 @@ func judgeGraphUnits(sc *work.Scratch, devs []string, units []*Unit, g *graphRes
 	g.events = len(rtEvents) + len(gEvents)
 	g.evaluations = tally.Ok + tally.Un + tally.Known + tally.Viol + int64(len(gEvents))
 	g.nontrivial = tally.Acc + tally.Rej + gtally.Acc
-	g.known = int(tally.Known)
+	g.known = int(tally.Known + gtally.Known)
+	g.knownSeen["RecursiveAllOfUnsupported"] += int(gtally.Known)
 	dir := filepath.Join(Home(), "replay", prop)
 	_ = os.MkdirAll(dir, 0o755)
 	write := func(name string, rp map[string]any) {
